@@ -20,10 +20,11 @@ def destroyTx (uid : Nat) (c : Conn) : Conn :=
     out := if c.out.tx == some uid then { c.out with tx := none } else c.out }
 
 /-- one callback invocation: log the event, look the action up in the policy table -/
-def runCallback (h : Hook) (uid : Option Nat) (data : Option Bytes) (isLast : Bool) (c : Conn) (gapLen : Nat := 0) : R :=
+def runCallback (h : Hook) (uid : Option Nat) (data : Option Bytes) (isLast : Bool) (c : Conn) (gapLen : Nat := 0)
+    (stale : Bool := false) : R :=
   let tx := (uid.bind c.findTx)
   let ev : Event := { hook := h, tx := match uid with | some u => (u : Int) | none => -1, data := data, isLast := isLast,
-                      gapLen := gapLen,
+                      gapLen := gapLen, stale := stale,
                       reqProgress := (tx.map (·.reqProgress)).getD 0, resProgress := (tx.map (·.resProgress)).getD 0 }
   let act := lookupAction c.policy c.cbCount
   let c := { c with cbCount := c.cbCount + 1, events := ev :: c.events }
@@ -33,14 +34,21 @@ def runCallback (h : Hook) (uid : Option Nat) (data : Option Bytes) (isLast : Bo
   | .stop => (c, .stop)
   | .error => (c, .error)
   | .destroyTx =>
-    -- the callback calls htp_tx_destroy(tx) (which refuses incomplete transactions) and returns OK
+    -- on TRANSACTION_COMPLETE the callback calls htp_tx_destroy(tx) and returns OK; elsewhere it only returns OK
+    -- (a transaction that the parser is still working on must not be destroyed from inside its callbacks)
     match tx with
-    | some t => if t.isComplete then (destroyTx t.uid c, .ok) else (c, .ok)
+    | some t => if h == .transactionComplete && t.isComplete && c.allowCbDestroy then (destroyTx t.uid c, .ok) else (c, .ok)
     | none => (c, .ok)
   | .regTxHooks =>
     match uid with
-    | some u => (c.modTx u (fun t => { t with txReqBodyHook := true, txResBodyHook := true }), .ok)
+    | some u => (c.modTx u (fun t => { t with txReqBodyHook := t.txReqBodyHook + 1, txResBodyHook := t.txResBodyHook + 1 }), .ok)
     | none => (c, .ok)
+
+/-- the same callback registered `n` times on one hook (htp_hook_run_all stops at the first non-OK) -/
+def runCallbackN : Nat → Hook → Option Nat → Option Bytes → Bool → Nat → Conn → R
+  | 0, _, _, _, _, _, c => (c, .ok)
+  | n + 1, h, uid, data, isLast, gapLen, c =>
+    runCallback h uid data isLast c gapLen >>? fun c => runCallbackN n h uid data isLast gapLen c
 
 /-! ### data receivers (raw header/trailer data) -/
 
@@ -53,8 +61,10 @@ def reqReceiverSend (isLast : Bool) (c : Conn) : R :=
   | none => (c, .ok)
   | some h =>
     let d := sliceCur c.inn c.inn.receiver c.inn.read
-    let data := if c.inn.curNull then (if c.inn.read - c.inn.receiver == 0 then some [] else some d) else some d
-    runCallback h c.inn.tx data isLast c >>? fun c =>
+    -- a NULL chunk (close / gap) hands out NULL + offset
+    let data := if c.inn.curNull then none else some d
+    runCallback h c.inn.tx data isLast c (if c.inn.curNull then (c.inn.read - c.inn.receiver).toNat else 0)
+      (!c.inn.curNull && !c.inn.live) >>? fun c =>
     ({ c with inn := { c.inn with receiver := c.inn.read } }, .ok)
 
 /-- htp_connp_req_receiver_finalize_clear -/
@@ -74,7 +84,9 @@ def resReceiverSend (isLast : Bool) (c : Conn) : R :=
   | none => (c, .ok)
   | some h =>
     let d := sliceCur c.out c.out.receiver c.out.read
-    runCallback h c.out.tx (some d) isLast c >>? fun c =>
+    let data := if c.out.curNull then none else some d
+    runCallback h c.out.tx data isLast c (if c.out.curNull then (c.out.read - c.out.receiver).toNat else 0)
+      (!c.out.curNull && !c.out.live) >>? fun c =>
     ({ c with out := { c.out with receiver := c.out.read } }, .ok)
 
 def resReceiverFinalizeClear (c : Conn) : R :=
@@ -138,7 +150,7 @@ def reqRunHookBodyData (cfg : Cfg) (data : Option Bytes) (gapLen : Nat) (c : Con
     -- transaction hooks first: library urlencoded handler, then a user-registered tx hook
     (if t.urlenBody.isSome then urlencBodyCallback cfg uid data c else (c, .ok)) >>? fun c =>
     let isLast := data.isNone && gapLen == 0
-    (if t.txReqBodyHook then runCallback .txRequestBodyData (some uid) data isLast c gapLen else (c, .ok)) >>? fun c =>
+    runCallbackN t.txReqBodyHook .txRequestBodyData (some uid) data isLast gapLen c >>? fun c =>
     runCallback .requestBodyData (some uid) data isLast c gapLen >>? fun c =>
     if c.putFile then runCallback .requestFileData (some uid) data false c gapLen else (c, .ok)
 
@@ -160,7 +172,7 @@ def resRunHookBodyData (data : Option Bytes) (c : Conn) : R :=
   | none => (c, .error)     -- NULL dereference in C; unreachable (callers hold out_tx)
   | some uid =>
     let t := c.outTx
-    (if t.txResBodyHook then runCallback .txResponseBodyData (some uid) data false c else (c, .ok)) >>? fun c =>
+    runCallbackN t.txResBodyHook .txResponseBodyData (some uid) data false 0 c >>? fun c =>
     runCallback .responseBodyData (some uid) data false c
 
 /-- htp_tx_res_process_body_data_ex -/
@@ -242,7 +254,11 @@ def processRequestHeader (data : Bytes) (c : Conn) : R :=
 
 def processResponseHeader (data : Bytes) (c : Conn) : R :=
   let (h, txf) := parseResponseHeader data
-  let c := c.modOut (fun t => { t with flags := t.flags ||| txf })
+  -- missing colon: UNPARSEABLE and INVALID are raised on the tx only if UNPARSEABLE was not already set
+  let c := c.modOut (fun t =>
+    if hasFlag h.flags FIELD_UNPARSEABLE then
+      (if hasFlag t.flags FIELD_UNPARSEABLE then t else { t with flags := t.flags ||| FIELD_UNPARSEABLE ||| FIELD_INVALID })
+    else { t with flags := t.flags ||| txf })
   let t := c.outTx
   match t.resHeaders.findIdx? (fun e => Bstr.cmpMemNocase e.name h.name == 0) with
   | none => (c.modOut (fun t => { t with resHeaders := t.resHeaders ++ [h] }), .ok)
